@@ -261,9 +261,6 @@ def r5(idx, rep):
     kr = {k: v for k, v in K.kw_values(idx, fn, r[0]).items() if k in ("delimiter", "quotechar")} if len(r) == 1 else None
     rep.check(kw == kr and kw is not None, "R5", f"{fl.file}::CsvLineSpooler writer and reader dialect agree",
               f"data.csv is written with {kw or 'the default dialect'} and read back with {kr}: with a non-default delimiter/quotechar the collected lines do not parse back", K.where(fl, fl.node))
-    fw = idx.method("ResultSerializer", "_save")
-    ws = [unparse(c) for c in walk_no_nested(fw.node) if isinstance(c, ast.Call) and call_name(c) in ("writer", "_csv_writer")]
-    rep.check(len(ws) == 2 and all(x.startswith("self._csv_writer(") for x in ws), "R5", f"{fw.file}::ResultSerializer._save uses the member dialect for data.csv and unmatched.csv", f"{ws}", K.where(fw, fw.node))
     seen = []
 
     def h_writer(i, c, r, a, k):
@@ -282,10 +279,6 @@ def r5(idx, rep):
     okd = len(pss) == 1 and pss[0].result[0] == "return" and len(seen) == 2 and all(kw == {"delimiter": ";", "quotechar": "'"} for kw in seen)
     rep.check(okd, "R5", f"{fs_.file}::ResultSerializer.save_result writes data files in the member's dialect (in context)",
               f"csv writers created with {seen} for a member with delimiter ';' and quotechar \"'\"", K.where(fs_, fs_.node))
-    fc = idx.method("ResultSerializer", "_csv_writer")
-    w = [c for c in walk_no_nested(fc.node) if isinstance(c, ast.Call) and call_name(c) == "writer" and c.keywords]
-    kw2 = {k.arg: unparse(k.value) for k in w[0].keywords} if w else None
-    rep.check(kw2 == want, "R5", f"{fc.file}::ResultSerializer._csv_writer dialect", f"{kw2}", K.where(fc, fc.node))
 
 
 def spooler_table(idx, rep, rid):
